@@ -177,6 +177,7 @@ OkPair(p) == /\ p[2] \in WheresFor(p[1])
              /\ WellFormed(TemplateSpec(p[1], p[2]))
              /\ LET z == Size(TemplateSpec(p[1], p[2])) IN
                 IF z = INF THEN Cardinality(Valid(TemplateSpec(p[1], p[2]))) <= 4 * MaxSize ELSE z <= MaxSize
+H_one == { <<O12, "all">> }
 H_tiny == { p \in WithWheres(Prim1 \cup Boxes1({O12, FloatT(0, 10)})) : OkPair(p) }
 H_quick == { p \in WithWheres(Prim1 \cup Prim2 \cup {O11} \cup Boxes1(Prim1 \cup Prim2 \cup {O11}) \cup Boxes2(PrimSmall, PrimSmall))
              : OkPair(p) }
@@ -188,7 +189,7 @@ H_thorough == { p \in WithWheres(Prim1 \cup Prim2 \cup {O11} \cup Boxes1(Prim1 \
 VARIABLES tmpl, wh
 hvars == <<tmpl, wh, spec, cur, prev, visited, done>>
 
-HInit == /\ <<tmpl, wh>> \in HyperUniverse
+HInit == /\ \E p \in HyperUniverse : tmpl = p[1] /\ wh = p[2]
          /\ spec = TemplateSpec(tmpl, wh)
          /\ prev = NoDNA
          /\ IF Finite(spec) THEN cur = FirstSp(spec) /\ done = FALSE
